@@ -374,6 +374,20 @@ class Flow:
                 elems = (("@Some" if "option::Option" in base[1] else "@Ok"), ".0") + tuple(elems[2:])
                 base = base[2][0]
                 continue
+            if base[0] == "call" and len(elems) >= 2 and elems[0] == "@Some" and elems[1] == ".0" and base[2] and \
+                    "Range" in (base[1] or "") and (base[1] or "").endswith("::next"):
+                # the item of a one-element range `a..a + 1` is `a` (a helper that marks a range of slots, called for one slot)
+                it = strip_refs(base[2][0])
+                while it[0] == "call" and (it[1] or "").endswith("into_iter") and it[2]:
+                    it = strip_refs(it[2][0])
+                if it[0] == "agg" and it[1].endswith("Range::Range") and len(it[2]) == 2:
+                    lo, hi = it[2]
+                    if hi[0] == "proj" and hi[2] == (".0",):
+                        hi = hi[1]
+                    if hi[0] == "binop" and hi[1] in ("Add", "AddWithOverflow", "AddUnchecked") and hi[2] == lo and hi[3][0] == "const" and hi[3][2] == "1":
+                        base = lo
+                        elems = elems[2:]
+                        continue
             if base[0] == "agg" and elems[0].startswith("@"):
                 # downcast of a known aggregate: keep going if the variant matches
                 if base[1].endswith("::" + elems[0][1:]):
@@ -1562,6 +1576,31 @@ class PathEval(Flow):
 
 
 
+def path_edge_labels(body, flow, path, j, cache=None):
+    """Labels of the CFG edge path[j] -> path[j+1]; a boolean switch on a local with several definitions (`a && b` folded into a
+    flag, the verdict of an inlined closure) is read as the definition that reaches it ALONG THIS PATH."""
+    a, c = path[j], path[j + 1]
+    if cache is not None and a in cache:
+        labs = cache[a]
+    else:
+        labs = flow.edge_labels(a)
+        if cache is not None:
+            cache[a] = labs
+    out = []
+    for lab in labs.get(c, []):
+        if lab[0] == "bool" and lab[1][0] not in ("call", "binop", "unop", "const"):
+            t = body.term(a)
+            if t["k"] == "switch":
+                e = PathEval(body, path[:j + 1]).operand_expr(t["discr"])
+                neg = False
+                while e[0] == "unop" and e[1] == "Not":
+                    e, neg = e[2], not neg
+                if e[0] in ("call", "binop"):
+                    lab = ("bool", e, (not lab[2]) if neg else lab[2])
+        out.append(lab)
+    return out
+
+
 def const_fold(e, depth=0):
     """Python value (int / bool) of an expression built only from constants, comparisons / arithmetic on them and projections
     out of aggregates of them; None when it is not a constant."""
@@ -1708,6 +1747,68 @@ def path_const_feasible(body, path):
     return True
 
 
+
+def one_element_range_feasible(body, flow, path):
+    """False when the path treats a `for` loop over a one-element range `a..a + 1` as anything but exactly one iteration
+    (first `next` must answer Some, the second None)."""
+    visits = {}
+    for i in range(len(path) - 1):
+        bb = path[i]
+        t = body.term(bb)
+        if t["k"] != "call" or t["func"]["k"] != "const" or "fn" not in t["func"]:
+            continue
+        nm = fn_name(t["func"]["fn"]) or ""
+        if not ("Range" in nm and nm.endswith("::next")) or not t["args"]:
+            continue
+        it = strip_refs(flow.operand_expr(t["args"][0]))
+        while it[0] == "call" and (it[1] or "").endswith("into_iter") and it[2]:
+            it = strip_refs(it[2][0])
+        if not (it[0] == "agg" and it[1].endswith("Range::Range") and len(it[2]) == 2):
+            continue
+        lo, hi = it[2]
+        if hi[0] == "proj" and hi[2] == (".0",):
+            hi = hi[1]
+        if not (hi[0] == "binop" and hi[1] in ("Add", "AddWithOverflow", "AddUnchecked") and hi[2] == lo and hi[3][0] == "const" and hi[3][2] == "1"):
+            continue
+        visits[bb] = visits.get(bb, 0) + 1
+        # which arm does the path take after this call?
+        dest = place_str(t["dest"])
+        arm = None
+        for j in range(i + 1, min(i + 6, len(path) - 1)):
+            for lab in flow.edge_labels(path[j]).get(path[j + 1], []):
+                if lab[0] == "variant" and place_str(lab[3]) == dest and lab[2] in ("Some", "None"):
+                    arm = lab[2]
+            if arm:
+                break
+        if arm is None:
+            continue
+        if (visits[bb] == 1 and arm != "Some") or (visits[bb] >= 2 and arm != "None"):
+            return False
+    return True
+
+
+
+def loop_over_one_element_range(body, flow, loop_blocks):
+    """The loop is driven by `Range::next` of a range `a..a + 1`: exactly one iteration."""
+    for bb in loop_blocks:
+        t = body.term(bb)
+        if t["k"] != "call" or t["func"]["k"] != "const" or "fn" not in t["func"] or not t["args"]:
+            continue
+        nm = fn_name(t["func"]["fn"]) or ""
+        if not ("Range" in nm and nm.endswith("::next")):
+            continue
+        it = strip_refs(flow.operand_expr(t["args"][0]))
+        while it[0] == "call" and (it[1] or "").endswith("into_iter") and it[2]:
+            it = strip_refs(it[2][0])
+        if it[0] == "agg" and it[1].endswith("Range::Range") and len(it[2]) == 2:
+            lo, hi = it[2]
+            if hi[0] == "proj" and hi[2] == (".0",):
+                hi = hi[1]
+            if hi[0] == "binop" and hi[1] in ("Add", "AddWithOverflow", "AddUnchecked") and hi[2] == lo and hi[3][0] == "const" and hi[3][2] == "1":
+                return True
+    return False
+
+
 # ---------------------------------------------------------------------- iterator-loop helpers
 
 ADAPTOR_OK = ("into_iter", "iter_mut", "iter", "enumerate", "rev", "filter", "by_ref", "as_mut", "deref_mut", "deref",
@@ -1846,6 +1947,31 @@ def all_arrivals_cross(body, flow, target_bb, edge_pred, loop_visits=2):
                     break
             if not crossed:
                 return False, n, path[:i + 1]
+    return n > 0, n, None
+
+
+def all_arrivals_cross_cf(body, flow, target_bb, edge_pred, loop_visits=2):
+    """all_arrivals_cross over the paths that are also constant-feasible (a path that contradicts a constant or a variant it
+    carries itself through an aggregate -- the verdict of an inlined helper re-tested after a join -- is no arrival)."""
+    labels = {}
+    n = 0
+    for kind, path, know in sensitive_paths(body, flow, loop_visits):
+        if target_bb not in path:
+            continue
+        i = path.index(target_bb)
+        if not path_const_feasible(body, path[:i + 1]):
+            continue
+        n += 1
+        crossed = False
+        for j in range(i):
+            a, b_ = path[j], path[j + 1]
+            if a not in labels:
+                labels[a] = flow.edge_labels(a)
+            if any(edge_pred(l_) for l_ in labels[a].get(b_, [])):
+                crossed = True
+                break
+        if not crossed:
+            return False, n, path[:i + 1]
     return n > 0, n, None
 
 
